@@ -36,6 +36,8 @@ pub use ast::FileData;
 pub use ast::FileId;
 pub use host_bindings::*;
 pub use prelude::PRELUDE;
+#[cfg(abra_verif)]
+pub use parse::{verif_lex, verif_parse_expr};
 use statics::Error;
 use std::ops::Range;
 use translate_bytecode::CompiledProgram;
